@@ -1,0 +1,32 @@
+// Copyright © 2022-2026 Obol Labs Inc. Licensed under the terms of a Business Source License 1.1
+
+//go:build verif
+
+package dkg
+
+import (
+	"context"
+
+	"github.com/libp2p/go-libp2p/core/host"
+	"github.com/libp2p/go-libp2p/core/peer"
+
+	"github.com/obolnetwork/charon/cluster"
+	"github.com/obolnetwork/charon/dkg/bcast"
+	"github.com/obolnetwork/charon/dkg/share"
+)
+
+// This file only exists in builds with the `verif` tag. It exposes the unexported FROST ceremony
+// entry points to the external verification harness without changing any behaviour.
+
+// VerifFrostTransport is the transport interface of the FROST rounds.
+type VerifFrostTransport = fTransport
+
+// VerifNewFrostP2P returns the production p2p FROST transport (it registers its handlers on p2pNode and bcastComp).
+func VerifNewFrostP2P(p2pNode host.Host, peers map[peer.ID]cluster.NodeIdx, bcastComp *bcast.Component, threshold, numVals int) (VerifFrostTransport, error) {
+	return newFrostP2P(p2pNode, peers, bcastComp, threshold, numVals)
+}
+
+// VerifRunFrostParallel runs the production FROST rounds for numValidators validators over tp.
+func VerifRunFrostParallel(ctx context.Context, tp VerifFrostTransport, numValidators, numNodes, threshold, shareIdx uint32, dkgCtx string) ([]share.Share, error) {
+	return runFrostParallel(ctx, tp, numValidators, numNodes, threshold, shareIdx, dkgCtx)
+}
